@@ -13,7 +13,7 @@ import (
 func run(c *fw.Ctx) {
 	m := fsx.Monitors{Model: true}
 	fsx.Explore(c, m)
-	fsx.Histories(c, m, c.Pick(96, 480), c.Pick(80, 150))
+	fsx.Histories(c, m, c.Pick(96, 4000), c.Pick(80, 200))
 }
 
 type witness struct {
